@@ -124,9 +124,39 @@ def r23b(ctx, P, rts):
                "a failed append can still return Ok", a.loc())
 
 
+def r23c(ctx, P):
+    rid = "R23.c"
+    from sa.rules.C13 import _is_error_exit_test
+    ctx.rule(rid, "EVERY ACKNOWLEDGED DELETE IS LOGGED: /delete answers `queued: n` for the ids it was given, so IndexWriter::"
+                  "delete_documents must log and queue each of them. The Wal::append_delete_doc_id call inside its loop over the ids is "
+                  "controlled by nothing but the loop test and error exits — no test on the handle's own view of the index (live_docs, "
+                  "cached sets), which a freshly opened writer (one per HTTP request) does not share with the writer that queued an "
+                  "earlier add")
+    f = P.fn(N.W + "::delete_documents")
+    if not ctx.anchor(rid, f, "IndexWriter::delete_documents"):
+        return
+    ctx.saw(f)
+    apps = [b for b, t in f.calls() if callee_of(t) == N.WAL + "::append_delete_doc_id"]
+    ctx.floor(rid, len(apps), 1, "Wal::append_delete_doc_id in delete_documents")
+    for b in apps:
+        extra = []
+        for (a, succ) in f.control_deps_transitive(b):
+            t = f.blocks[a]["term"]
+            if t["k"] != "switch":
+                continue
+            if any("ForLoop" in m or "WhileLoop" in m or "QuestionMark" in m for m in (t.get("macros") or [])) or _is_error_exit_test(f, a):
+                continue
+            extra.append(Site(f, a))
+        ctx.ob(rid, "%s:delete_documents:append-unconditional" % rid, not extra,
+               "every id given to delete_documents is appended to the log" if not extra else
+               "whether an id is logged at %s depends on the test at %s: a delete that was acknowledged can be dropped (for instance a "
+               "delete of a document queued by an earlier request and not yet committed)" % (Site(f, b).loc(), extra[0].loc()), Site(f, b).loc())
+
+
 def run(ctx, progs):
     P = progs.get("default")
     rts = r23a(ctx, P)
     if rts:
         r23b(ctx, P, rts)
+    r23c(ctx, P)
     ctx.assumptions += ["one shared IndexWriter queue/WAL per index; HTTP handlers open a writer per request, which replays the queued operations of earlier requests from the WAL"]
